@@ -892,7 +892,12 @@ def rule_j(res: Results, idx: Index) -> None:
                         # any other closed expression over the permutation and ONE shape: evaluate it on a 3-cycle
                         for v in cands:
                             allowed = {"tuple", "list", "sorted", "zip", "enumerate", "range", "len", "int", "reversed"}
-                            if any(isinstance(c_, ast.Call) and (call_name(c_) or "?") not in allowed for c_ in ast.walk(v)):
+                            def _ok_call(c_: ast.Call) -> bool:
+                                if (call_name(c_) or "?") in allowed:
+                                    return True
+                                # list / tuple methods on the shape or the permutation itself: `perm.index(axis)`
+                                return isinstance(c_.func, ast.Attribute) and c_.func.attr in ("index", "count") and isinstance(c_.func.value, ast.Name)
+                            if any(isinstance(c_, ast.Call) and not _ok_call(c_) for c_ in ast.walk(v)):
                                 continue      # calls into helpers are classified above (or stay unresolved)
                             free = names_in(v) - allowed
                             bound = {n_.id for c_ in ast.walk(v) if isinstance(c_, ast.comprehension) for n_ in ast.walk(c_.target) if isinstance(n_, ast.Name)}
